@@ -514,6 +514,11 @@ class RefServer:
                     self.auth_state = None
                     self.no(None, b"Authentication failed.")
                     return True
+                if getattr(self, "auth_final_sasl", False):
+                    # final data travels with the completion response instead of a further round trip
+                    self.auth_state = None
+                    self._auth_finish(sasl=b"rspauth=" + rsp)
+                    return True
                 self.emit(enc_quoted(base64.b64encode(b"rspauth=" + rsp)) + CRLF)
                 return True
             self.auth_state = None
@@ -564,15 +569,21 @@ class RefServer:
             return None
         return kd(":" + fields.get("digest-uri", "")).encode("ascii")
 
-    def _auth_finish(self):
+    def _auth_finish(self, sasl=None):
         f = self.fault_for("AUTHRESULT")
         if f:
             return self.apply_fault(f)
+        # RFC 5804 2.1: the completion response may carry final server data as a SASL response code - on OK (success data)
+        # and, for this reference, also on NO (a server that checked the exchange and refuses the login all the same)
+        rcode = None
+        if getattr(self, "auth_final_sasl", False):
+            rcode = b"SASL " + enc_quoted(base64.b64encode(sasl if sasl is not None else b"final"))
         if self.auth_ok:
             self.authenticated = True
-            self.ok(b"Logged in.")
+            text, lit = self._text_choice(b"Logged in.")
+            self.emit(status(b"OK", rcode, text, literal=lit))
         else:
-            self.no(None, b"Authentication failed.")
+            self.no(rcode, b"Authentication failed.")
 
     def do_HAVESPACE(self, args):
         if self.ch.choose("havespace-quota", 2) == 1:
